@@ -446,6 +446,26 @@ func ruleLoresScaleAgrees(r *Run) {
 				}
 			}
 		}
+		// the read of the receiving block may sit in a helper of the worker (d.initialLoresBlock(..., scale, ...)): the
+		// scale it reads at is the argument handed to the helper's parameter
+		for _, c := range calls(f) {
+			g := staticCallee(c)
+			if g == nil || g == f || g.Pkg != f.Pkg || len(g.Blocks) == 0 || g.Object() == nil || g.Object().Exported() {
+				continue
+			}
+			for _, gc := range calls(g) {
+				callee := staticCallee(gc)
+				if callee == nil || (callee.Name() != "getSupervoxelBlock" && callee.Name() != "getLabelBlock") || len(gc.Common().Args) != 4 {
+					continue
+				}
+				for i, prm := range g.Params {
+					if stripConv(gc.Common().Args[3]) == ssa.Value(prm) && i < len(c.Common().Args) {
+						reads = append(reads, c.Common().Args[i])
+						at = c
+					}
+				}
+			}
+		}
 		// the per-octant worker: it votes (calls Downres) and both reads and writes blocks
 		votes := false
 		for _, c := range calls(f) {
